@@ -87,7 +87,7 @@ def axis_scan(model, scope=SCOPE):
                     listy = isinstance(a, (ast.List, ast.ListComp, ast.GeneratorExp, ast.Tuple)) or (
                         isinstance(a, ast.Name) and any(isinstance(v, (ast.List, ast.ListComp)) for _, v in
                                                         astq.assignments_to(fi, a.id) if v is not None)) or (
-                        isinstance(a, ast.Name) and a.id in ("seq", "xs"))
+                        isinstance(a, ast.Name) and _bound_to_zip_item(fi, a.id))
                     out.append((fi, n, f"builtin `{ast.unparse(n)[:50]}`", listy or bool(tabled),
                                 "sum over a Python list" if listy else tabled))
                 elif name in AXIS_MIXERS and isinstance(f, ast.Attribute):
@@ -115,6 +115,21 @@ def axis_scan(model, scope=SCOPE):
                     elif isinstance(idx, ast.Slice) and (idx.lower is not None or idx.upper is not None):
                         out.append((fi, n, f"`{ast.unparse(n)}` selects a sub-range of batch rows", bool(tabled), tabled))
     return out
+
+
+def _bound_to_zip_item(fi, name):
+    """`name` is a comprehension / for target iterating over zip(...): each value is a Python tuple, so builtin sum over it
+    adds the tuple's members element-wise (no tensor axis is reduced)."""
+    for n in ast.walk(fi.node):
+        gens = n.generators if isinstance(n, (ast.ListComp, ast.GeneratorExp, ast.SetComp, ast.DictComp)) else []
+        if isinstance(n, ast.For):
+            gens = [n]
+        for g in gens:
+            tgt, it = g.target, g.iter
+            if isinstance(tgt, ast.Name) and tgt.id == name and isinstance(it, ast.Call) and \
+                    isinstance(it.func, ast.Name) and it.func.id == "zip":
+                return True
+    return False
 
 
 def r20_2(ctx):
